@@ -204,6 +204,11 @@ class TimeRecurrence:
         if self._repetitions is not None and self._repetitions <= 0:
             raise BadInputError(BadInputError.RECURRENCE,
                                 "Number of repetitions cannot be <= 0")
+        for point in (start_point, end_point, min_point, max_point):
+            if point is not None and point.truncated:
+                raise BadInputError(
+                    BadInputError.RECURRENCE,
+                    "Truncated TimePoint {0} cannot be used".format(point))
         if self._duration is not None and self._duration < Duration(years=0):
             raise BadInputError(BadInputError.RECURRENCE,
                                 "Duration cannot be < P0Y")
